@@ -527,7 +527,7 @@ static ares_status_t ares_append_requeue(ares_array_t **requeue,
   if (*requeue == NULL) {
     *requeue = ares_array_create(sizeof(ares_requeue_t), NULL);
     if (*requeue == NULL) {
-      return ARES_ENOMEM;
+      goto fail;
     }
   }
 
@@ -535,7 +535,18 @@ static ares_status_t ares_append_requeue(ares_array_t **requeue,
 
   entry.qid    = query->qid;
   entry.server = server;
-  return ares_array_insertdata_last(*requeue, &entry);
+  if (ares_array_insertdata_last(*requeue, &entry) != ARES_SUCCESS) {
+    goto fail;
+  }
+  return ARES_SUCCESS;
+
+fail:
+  /* The query could not be parked for a later resend.  It must not stay
+   * behind half-detached from its connection (which the caller is about to
+   * close) or without anything left that could ever complete it, so fail it
+   * now. */
+  end_query(query->channel, NULL, query, ARES_ENOMEM, NULL);
+  return ARES_ENOMEM;
 }
 
 static ares_status_t read_answers(ares_conn_t *conn, const ares_timeval_t *now)
